@@ -366,6 +366,19 @@ pub trait SectionDyn: Send + Sync {
     fn run(&self, ctx: &Ctx) -> SectionResult;
     /// Re-run one serialised case; strict = no known-finding suppression.
     fn replay(&self, ctx: &Ctx, case: &Value, strict: bool) -> Result<ReplayOutcome, String>;
+    /// `n` ordinary generated cases as JSON values (starting corpus for the fuzzer, whose inputs
+    /// are serialised cases mutated structurally, see fuzzmut.rs).
+    fn gen_cases(&self, ctx: &Ctx, n: usize) -> Vec<Value>;
+}
+
+#[derive(Debug)]
+pub enum FuzzOutcome {
+    /// the strategy rejected the stream or the section is enumerated
+    NoCase,
+    Pass,
+    /// (message, replay document)
+    Violation(String, Value),
+    HarnessError(String),
 }
 
 #[derive(Debug)]
@@ -682,6 +695,28 @@ where
         total
     }
 
+    fn gen_cases(&self, ctx: &Ctx, n: usize) -> Vec<Value> {
+        let Source::Random(mk, _) = &self.source else { return vec![] };
+        let strat = mk();
+        let config = Config {
+            cases: 1,
+            failure_persistence: None,
+            verbose: 0,
+            ..Config::default()
+        };
+        let rng = TestRng::from_seed(RngAlgorithm::ChaCha, &seed_bytes(ctx.seed, ctx.prop, &self.name, 1_000_000));
+        let mut runner = TestRunner::new_with_rng(config, rng);
+        let mut out = vec![];
+        for _ in 0..n {
+            if let Ok(t) = strat.new_tree(&mut runner) {
+                if let Ok(v) = serde_json::to_value(t.current()) {
+                    out.push(v);
+                }
+            }
+        }
+        out
+    }
+
     fn replay(&self, ctx: &Ctx, case: &Value, strict: bool) -> Result<ReplayOutcome, String> {
         let c: C = serde_json::from_value(case.clone())
             .map_err(|e| format!("cannot decode case for section {}: {e}", self.name))?;
@@ -988,6 +1023,85 @@ pub fn replay_file(ctx: &Ctx, def: &PropertyDef, path: &Path, lenient: bool) -> 
             println!("  violation: {msg}");
             println!("VIOLATION property={} replay={}", ctx.prop, path.display());
             1
+        }
+    }
+}
+
+
+// ---------------------------------------------------------------------------------------------
+// generic fuzz bridge (used by fuzz/fuzz_targets/generic.rs and `qv fuzz-seeds`)
+
+pub struct FuzzHandle {
+    pub ctx: Ctx,
+    section: Box<dyn SectionDyn>,
+}
+
+/// Open one section of one property for byte-driven runs.  Sizes follow the quick tier (small
+/// cases suit a fuzzer); known findings are not suppressed.
+pub fn fuzz_open(prop: &str, section: &str, verif_dir: &std::path::Path) -> Result<FuzzHandle, String> {
+    let Some(sid) = crate::props::ids().into_iter().find(|x| *x == prop) else {
+        return Err(format!("unknown property {prop}"));
+    };
+    let ctx = Ctx {
+        prop: sid,
+        tier: Tier::Quick,
+        seed: std::env::var("VERIF_SEED").ok().and_then(|s| s.parse().ok()).unwrap_or(0),
+        verif_dir: verif_dir.to_path_buf(),
+        known: Arc::new(KnownFindings::default()),
+        scale: 1.0,
+    };
+    let def = crate::props::get(sid, &ctx).ok_or("no definition")?;
+    let names: Vec<String> = def.sections.iter().map(|s| s.name().to_string()).collect();
+    let Some(sec) = def.sections.into_iter().find(|s| s.name() == section) else {
+        return Err(format!("property {prop} has no section {section} (sections: {names:?})"));
+    };
+    Ok(FuzzHandle { ctx, section: sec })
+}
+
+impl FuzzHandle {
+    /// One fuzzer input = the JSON text of a case of this section.
+    pub fn one(&self, data: &[u8]) -> FuzzOutcome {
+        let Ok(case) = serde_json::from_slice::<Value>(data) else { return FuzzOutcome::NoCase };
+        match self.section.replay(&self.ctx, &case, true) {
+            Err(e) if e.starts_with("cannot decode case") => FuzzOutcome::NoCase,
+            Err(e) => FuzzOutcome::HarnessError(e),
+            Ok(ReplayOutcome::Pass) | Ok(ReplayOutcome::Known(_)) => FuzzOutcome::Pass,
+            Ok(ReplayOutcome::Violation(msg)) => FuzzOutcome::Violation(
+                msg.clone(),
+                json!({"property": self.ctx.prop, "section": self.section.name(), "message": msg, "case": case}),
+            ),
+        }
+    }
+    /// learn the generator's per-coordinate hull from `n` ordinary cases and hand it to the mutator
+    pub fn learn_bounds(&self, n: usize) {
+        let cases = self.section.gen_cases(&self.ctx, n);
+        crate::fuzzmut::set_bounds(crate::fuzzmut::Bounds::learn(&cases));
+    }
+    pub fn seeds(&self, n: usize) -> Vec<Vec<u8>> {
+        self.section.gen_cases(&self.ctx, n).into_iter().map(|v| v.to_string().into_bytes()).collect()
+    }
+    /// Run one input; a violation is written as an ordinary JSON replay file and reported by
+    /// panicking (which the fuzzer records as a crash).
+    pub fn one_or_panic(&self, data: &[u8]) {
+        match self.one(data) {
+            FuzzOutcome::Pass | FuzzOutcome::NoCase => {}
+            FuzzOutcome::HarnessError(e) => {
+                // not a violation: make it visible without stopping the campaign
+                eprintln!("HARNESS-ERROR property={} {e}", self.ctx.prop);
+                let _ = std::fs::write(self.ctx.verif_dir.join("replays").join(format!("{}-fuzz-harness-error.txt", self.ctx.prop)), e);
+            }
+            FuzzOutcome::Violation(msg, doc) => {
+                let dir = self.ctx.verif_dir.join("replays");
+                let _ = std::fs::create_dir_all(&dir);
+                let mut h = std::collections::hash_map::DefaultHasher::new();
+                use std::hash::{Hash, Hasher};
+                doc.to_string().hash(&mut h);
+                let path = dir.join(format!("{}-fuzz-{}-{:016x}.json", self.ctx.prop, self.section.name(), h.finish()));
+                let _ = std::fs::write(&path, serde_json::to_string_pretty(&doc).unwrap_or_default());
+                eprintln!("violation (fuzz) in section {}: {msg}", self.section.name());
+                eprintln!("VIOLATION property={} replay={}", self.ctx.prop, path.display());
+                panic!("violation: {msg}");
+            }
         }
     }
 }
